@@ -69,8 +69,21 @@ def run(ctx):
         if r2["rc"] == 0:
             raise vlib.Broken("Trace_Conc accepted a trace with write phases out of order: the trace spec does not bind")
         ctx.note("Trace_Conc accepted the recorded traces and rejected the corrupted copy")
+    # the sequential lifecycle in the race-detector build (instrumented prologues, larger frames, race runtime calls in
+    # wrappers): same oracle as C02/C12, a sample of histories per handle kind incl. generic instantiations and interfaces
+    from checks import life
+    from lib.replay import replay_family
+    base = {"B": '{"b1"}', "T": '{"f", "g"}', "CB": '{"c1", "c2"}', "RS": "<- RS_12", "A": "{0, 1}", "Ops": "<- HeldOps"}
+    lb = life.sim(ctx, base, 60 if q else 1200, 10, "lifecycle histories for the race build")
+    replay_family(ctx, "life", lb, race=True, classify=life.classify)
+    gb = life.sim(ctx, {"B": '{"b1", "b2"}', "T": '{"f", "g", "h"}', "CB": '{"c1", "c2"}', "RS": "<- RS_12", "A": "{0}", "Ops": "<- GenericOps"},
+                  60 if q else 1200, 10, "generic-instantiation histories for the race build")
+    replay_family(ctx, "life-generic", gb, race=True, classify=life.classify)
+    ib = ctx.behaviours(ctx.tlc("MC_Iface", "Sim_Iface.cfg", workers=1, timeout=900, simulate="num=%d" % (60 if q else 1200), depth=12, tag="interface histories for the race build"))
+    replay_family(ctx, "iface", ib, race=True, batch=4000)
     ctx.cov["rule"] = ("4 mocker goroutines (own builder, own target: three plain functions adjacent in one code page and one instantiation of a generic function, whose wrapper scan reads text outside the patch lock) x rounds of apply/call/re-stub/call/"
                        "reset/call with seeded yields, 3 callers hammering a steadily mocked method whose callback calls the origin "
                        "placeholder; every hook event inside a critical section must be an enabled action of Conc; image + page "
-                       "permissions checked at every quiescence; once under the race detector, once without")
+                       "permissions checked at every quiescence; once under the race detector, once without; "
+                       "sequential lifecycle / generic / interface histories replayed in the race-detector build")
     ctx.assumptions += ["two goroutines never mock the same target (documented as unsupported by goom)"]
